@@ -1,15 +1,25 @@
 // C39 harness: operation sequences on a real b6.Tags value.
+//
+// Cases 0..nExhaustive-1 enumerate every key-distinct list of length <= 4 over a 5-key alphabet and apply,
+// each on a fresh copy (with and without spare capacity holding stale tags), every single-key Get /
+// ModifyOrAddTag / RemoveTag and RemoveTags with every subset of the alphabet in two orders.  The
+// remaining cases are random operation sequences over an 8-key alphabet, including Clone/MergeFrom
+// aliasing probes (a second list is held aside and re-read after the first one has been mutated, and
+// the other way round).  One case in ten works on a list with repeated keys: outside the property's
+// domain, there the driver only compares with the Go-slice model of RemoveTag (panic / surviving tag).
 package main
 
 import (
 	"fmt"
-	"strings"
 
 	"diagonal.works/b6"
 	"verifharness/hx"
 )
 
 var keys = []string{"a", "b", "c", "d", "e", "f", "g", "h"}
+var smallKeys = []string{"a", "b", "c", "d", "e"}
+
+func tag(k, v string) b6.Tag { return b6.Tag{Key: k, Value: b6.NewStringExpression(v)} }
 
 func render(t b6.Tags) string {
 	xs := make([]string, len(t))
@@ -30,58 +40,207 @@ func has(t b6.Tags, k string) bool {
 	return false
 }
 
-func runOps(c *hx.Ctx, init []string, nops int) {
+// pickKey prefers keys that are in the list (3 in 5), so present/absent are both well covered.
+func pickKey(r *hx.Rand, t b6.Tags) string {
+	if len(t) > 0 && r.Chance(3, 5) {
+		return t[r.Intn(len(t))].Key
+	}
+	return r.Pick(keys)
+}
+
+func distinct(t b6.Tags) bool {
+	seen := map[string]bool{}
+	for _, tag := range t {
+		if seen[tag.Key] {
+			return false
+		}
+		seen[tag.Key] = true
+	}
+	return true
+}
+
+// withSpare returns a copy of t whose backing array has `spare` extra slots filled with stale tags
+// (keys from the same alphabet, so a loop that reads past len would match them).
+func withSpare(t b6.Tags, spare int, alphabet []string) b6.Tags {
+	back := make(b6.Tags, len(t)+spare)
+	copy(back, t)
+	for i := len(t); i < len(back); i++ {
+		back[i] = tag(alphabet[(i*3+1)%len(alphabet)], "stale")
+	}
+	return back[:len(t)]
+}
+
+func opGet(c *hx.Ctx, t b6.Tags, k string) {
+	found := t.Get(k)
+	if found.IsValid() {
+		c.Op("get "+k, "some "+found.Value.String())
+	} else {
+		c.Op("get "+k, "none")
+	}
+}
+
+func opSet(c *hx.Ctx, t *b6.Tags, k, v string) string {
+	ans := hx.Recover(func() string {
+		modified, old := t.ModifyOrAddTag(tag(k, v))
+		o := "-"
+		if modified {
+			o = old.String()
+		}
+		return fmt.Sprintf("%v %s %s", modified, o, render(*t))
+	})
+	c.Op("set "+k+"="+v, ans)
+	return ans
+}
+
+func opRm(c *hx.Ctx, t *b6.Tags, k string) string {
+	ans := hx.Recover(func() string { t.RemoveTag(k); return render(*t) })
+	c.Op("rm "+k, ans)
+	return ans
+}
+
+func opRms(c *hx.Ctx, t *b6.Tags, ks []string) string {
+	ans := hx.Recover(func() string { t.RemoveTags(ks); return render(*t) })
+	c.Op("rms "+hx.List(ks), ans)
+	return ans
+}
+
+func opInit(c *hx.Ctx, t b6.Tags) { c.Op("init "+render(t), render(t)) }
+
+// ---- bounded-exhaustive part ----------------------------------------------------------------
+
+// all key-distinct lists of length <= 4 over smallKeys, in a fixed order
+func smallLists() [][]string {
+	var out [][]string
+	var rec func(cur []string)
+	rec = func(cur []string) {
+		out = append(out, append([]string(nil), cur...))
+		if len(cur) == 4 {
+			return
+		}
+		for _, k := range smallKeys {
+			used := false
+			for _, x := range cur {
+				if x == k {
+					used = true
+				}
+			}
+			if !used {
+				rec(append(cur, k))
+			}
+		}
+	}
+	rec(nil)
+	return out
+}
+
+var lists = smallLists()
+var nExhaustive = len(lists)
+
+func exhaustive(c *hx.Ctx, ks []string) {
+	base := make(b6.Tags, len(ks))
+	for i, k := range ks {
+		base[i] = tag(k, fmt.Sprintf("%d", i+1))
+	}
+	fresh := func(spare int) b6.Tags {
+		t := withSpare(base, spare, smallKeys)
+		opInit(c, t)
+		return t
+	}
+	for _, spare := range []int{0, 2} {
+		for _, k := range smallKeys {
+			t := fresh(spare)
+			opGet(c, t, k)
+			opRm(c, &t, k)
+			opGet(c, t, k)
+			t = fresh(spare)
+			opSet(c, &t, k, "new")
+			opGet(c, t, k)
+		}
+		for mask := 0; mask < 1<<len(smallKeys); mask++ {
+			var sub []string
+			for i, k := range smallKeys {
+				if mask&(1<<i) != 0 {
+					sub = append(sub, k)
+				}
+			}
+			t := fresh(spare)
+			opRms(c, &t, sub)
+			rev := make([]string, 0, len(sub)+1)
+			for i := len(sub) - 1; i >= 0; i-- {
+				rev = append(rev, sub[i])
+			}
+			if len(sub) > 0 {
+				rev = append(rev, sub[len(sub)-1]) // a repeated key in the key list
+			}
+			t = fresh(spare)
+			opRms(c, &t, rev)
+		}
+	}
+	c.Note(fmt.Sprintf("exhaustive:len=%d", len(ks)))
+	if len(ks) >= 2 {
+		c.NonTrivial()
+	}
+}
+
+// ---- random part ----------------------------------------------------------------------------
+
+func runOps(c *hx.Ctx, init []string, nops int, dups bool) {
 	r := c.Rand
 	var t b6.Tags
 	for _, k := range init {
-		t = append(t, b6.Tag{Key: k, Value: b6.NewStringExpression(val(r))})
+		t = append(t, tag(k, val(r)))
 	}
-	if r.Bool() { // a slice with spare capacity, as after earlier appends
-		t2 := make(b6.Tags, len(t), len(t)+r.Intn(4))
-		copy(t2, t)
-		t = t2
+	if r.Bool() { // a slice with spare capacity holding stale tags, as after earlier removals
+		t = withSpare(t, r.Intn(4), keys)
 	}
-	c.Op("init "+render(t), render(t))
-	removedMany := false
+	opInit(c, t)
+	var other b6.Tags
+	hasOther := false
+	removedMany, probed := false, false
+	reinit := func() { // after a panic the list is whatever the interrupted call left
+		t = t.Clone()
+		opInit(c, t)
+		hasOther = false
+	}
 	for i := 0; i < nops; i++ {
-		switch r.Intn(7) {
+		switch r.Intn(12) {
 		case 0:
-			k := r.Pick(keys)
-			tag := t.Get(k)
-			if tag.IsValid() {
-				c.Op("get "+k, "some "+tag.Value.String())
-			} else {
-				c.Op("get "+k, "none")
-			}
+			opGet(c, t, pickKey(r, t))
 			c.Note("op:get")
 		case 1, 2:
-			k, v := r.Pick(keys), val(r)
-			ans := hx.Recover(func() string {
-				modified, old := t.ModifyOrAddTag(b6.Tag{Key: k, Value: b6.NewStringExpression(v)})
-				o := "-"
-				if modified {
-					o = old.String()
-				}
-				return fmt.Sprintf("%v %s %s", modified, o, render(t))
-			})
-			c.Op("set "+k+"="+v, ans)
+			k := pickKey(r, t)
+			if has(t, k) {
+				c.Note("set:present")
+			} else {
+				c.Note("set:absent")
+			}
+			if opSet(c, &t, k, val(r)) == "panic" {
+				reinit()
+			}
 			c.Note("op:set")
 		case 3:
 			k := r.Pick(keys)
-			if has(t, k) {
+			if has(t, k) && !dups {
 				continue
 			}
 			v := val(r)
-			t.AddTag(b6.Tag{Key: k, Value: b6.NewStringExpression(v)})
+			t.AddTag(tag(k, v))
 			c.Op("add "+k+"="+v, render(t))
 			c.Note("op:add")
-		case 4:
-			k := r.Pick(keys)
-			ans := hx.Recover(func() string { t.RemoveTag(k); return render(t) })
-			c.Op("rm "+k, ans)
+		case 4, 5:
+			k := pickKey(r, t)
+			if has(t, k) {
+				c.Note("rm:present")
+			} else {
+				c.Note("rm:absent")
+			}
+			if opRm(c, &t, k) == "panic" {
+				c.Note("rm:panic")
+				reinit()
+			}
 			c.Note("op:rm")
-		case 5:
-			n := r.Intn(4)
+		case 6, 7:
+			n := r.Intn(5)
 			p := r.Perm(len(keys))
 			var ks []string
 			present := 0
@@ -91,61 +250,174 @@ func runOps(c *hx.Ctx, init []string, nops int) {
 					present++
 				}
 			}
+			if n > 0 && r.Chance(1, 5) { // repeated key in the key list
+				ks = append(ks, ks[r.Intn(len(ks))])
+				c.Note("rms:repeated-key")
+			}
 			if present >= 2 {
 				removedMany = true
 				c.Note("rms:>=2-present")
 			}
-			ans := hx.Recover(func() string { t.RemoveTags(ks); return render(t) })
-			if ans == "panic" {
-				c.Note("rms:panic")
-				t = t.Clone()
+			if len(t) > 0 && contains(ks, t[len(t)-1].Key) && present >= 2 {
+				c.Note("rms:last+earlier")
 			}
-			c.Op("rms "+hx.List(ks), ans)
+			if opRms(c, &t, ks) == "panic" {
+				c.Note("rms:panic")
+				reinit()
+			}
 			c.Note("op:rms")
-		case 6:
+		case 8:
 			n := r.Intn(6)
 			p := r.Perm(len(keys))
 			var o b6.Tags
 			for j := 0; j < n; j++ {
-				o = append(o, b6.Tag{Key: keys[p[j]], Value: b6.NewStringExpression(val(r))})
+				o = append(o, tag(keys[p[j]], val(r)))
 			}
+			if dups && n > 0 && r.Bool() {
+				o = append(o, tag(o[0].Key, val(r)))
+			}
+			switch {
+			case len(o) < len(t):
+				c.Note("merge:shorter")
+			case len(o) == len(t):
+				c.Note("merge:same-len")
+			case len(o) <= cap(t):
+				c.Note("merge:longer-within-cap")
+			default:
+				c.Note("merge:longer-realloc")
+			}
+			arg := render(o)
 			t.MergeFrom(o)
-			c.Op("merge "+render(o), render(t))
+			c.Op("merge "+arg, render(t))
+			// the argument is now the list held aside: later `chk`s see whether it is still what was passed
+			other, hasOther = o, true
 			c.Note("op:merge")
+		case 9:
+			if r.Bool() {
+				t = t.Clone()
+				c.Op("clone", render(t))
+				c.Note("op:clone")
+			} else {
+				other = t.Clone()
+				hasOther = true
+				c.Op("snap", render(other))
+				c.Note("op:snap")
+			}
+		case 10:
+			if !hasOther {
+				continue
+			}
+			if r.Bool() {
+				t, other = other, t
+				c.Op("swap", render(t))
+				c.Note("op:swap")
+			} else {
+				t.MergeFrom(other)
+				c.Op("mergeo", render(t))
+				c.Note("op:mergeo")
+			}
+		case 11:
+			if !hasOther {
+				continue
+			}
+			c.Op("chk", render(other))
+			probed = true
+			c.Note("op:chk")
 		}
 	}
+	if hasOther {
+		c.Op("chk", render(other))
+		probed = true
+	}
 	c.Note(fmt.Sprintf("init-len:%d", len(init)))
-	if removedMany {
+	if dups {
+		c.Note("case:repeated-keys(out-of-domain)")
+	} else if !distinct(t) {
+		c.Note("case:BUG-generator-lost-distinctness")
+	}
+	if removedMany || probed {
 		c.NonTrivial()
 	}
+}
+
+func contains(xs []string, k string) bool {
+	for _, x := range xs {
+		if x == k {
+			return true
+		}
+	}
+	return false
 }
 
 func main() {
 	hx.Main(hx.Family{
 		Name: "c39",
-		Rule: "random op sequences (get/set/add/rm/rms/merge) on a b6.Tags with distinct keys from an 8-key alphabet; non-trivial = the sequence contains a RemoveTags call that removes at least two present keys; distinct = by hash of the op text",
-		Quick:    3000,
-		Thorough: 200000,
+		Rule: fmt.Sprintf("cases 0..%d: bounded-exhaustive (every key-distinct list of length <=4 over 5 keys x every single-key get/set/rm and RemoveTags of every key subset in two orders, with and without spare capacity); other cases: random op sequences (get/set/add/rm/rms/merge/clone + snap/swap/mergeo/chk aliasing probes) over an 8-key alphabet, 1 in 10 on a list with repeated keys (outside the property's domain, model comparison only); non-trivial = exhaustive list of length >=2, or a RemoveTags call removing >=2 present keys, or an aliasing probe re-read; distinct = by hash of the op text", nExhaustive-1),
+		Quick:    nExhaustive + 3000,
+		Thorough: nExhaustive + 200000,
 		Corpus: func(c *hx.Ctx) {
 			// fixed: RemoveTags adjacent removal and tail removal (DESIGN §7)
-			t := b6.Tags{{Key: "a", Value: b6.NewStringExpression("1")}, {Key: "b", Value: b6.NewStringExpression("2")}, {Key: "c", Value: b6.NewStringExpression("3")}}
-			c.Op("init "+render(t), render(t))
-			c.Op("rms [a b]", hx.Recover(func() string { t.RemoveTags([]string{"a", "b"}); return render(t) }))
-			t = b6.Tags{{Key: "a", Value: b6.NewStringExpression("1")}, {Key: "b", Value: b6.NewStringExpression("2")}, {Key: "c", Value: b6.NewStringExpression("3")}}
-			c.Op("init "+render(t), render(t))
-			c.Op("rms [a c]", hx.Recover(func() string { t.RemoveTags([]string{"a", "c"}); return render(t) }))
+			t := b6.Tags{tag("a", "1"), tag("b", "2"), tag("c", "3")}
+			opInit(c, t)
+			opRms(c, &t, []string{"a", "b"})
+			t = b6.Tags{tag("a", "1"), tag("b", "2"), tag("c", "3")}
+			opInit(c, t)
+			opRms(c, &t, []string{"a", "c"})
+			// outside the domain (repeated keys): remove_tag_duplicate_panics_counterexample,
+			// remove_tag_duplicate_survives_counterexample — replayed so the model's reading of the loop is tied
+			t = b6.Tags{tag("a", "1"), tag("a", "2")}
+			opInit(c, t)
+			opRm(c, &t, "a")
+			t = b6.Tags{tag("a", "1"), tag("a", "2"), tag("b", "3")}
+			opInit(c, t)
+			opRm(c, &t, "a")
+			// spare capacity whose hidden part repeats a visible key (example in Props/C39.lean)
+			back := b6.Tags{tag("a", "1"), tag("b", "2"), tag("a", "7"), tag("b", "8")}
+			t = back[:2]
+			opInit(c, t)
+			opRm(c, &t, "a")
+			t.AddTag(tag("c", "3"))
+			c.Op("add c=3", render(t))
+			// aliasing: clone, mutate the original, re-read the clone; and the other way round
+			t = withSpare(b6.Tags{tag("a", "1"), tag("b", "2"), tag("c", "3")}, 2, smallKeys)
+			opInit(c, t)
+			other := t.Clone()
+			c.Op("snap", render(other))
+			opSet(c, &t, "a", "x")
+			opRm(c, &t, "b")
+			c.Op("chk", render(other))
+			t, other = other, t
+			c.Op("swap", render(t))
+			opSet(c, &t, "c", "y")
+			opRm(c, &t, "a")
+			c.Op("chk", render(other))
+			t.MergeFrom(other)
+			c.Op("mergeo", render(t))
+			opSet(c, &t, "a", "z")
+			c.Op("chk", render(other))
 			c.NonTrivial()
 		},
 		Case: func(c *hx.Ctx) {
+			if c.CaseNo < nExhaustive {
+				exhaustive(c, lists[c.CaseNo])
+				return
+			}
 			r := c.Rand
+			dups := r.Chance(1, 10)
 			n := r.Intn(7)
 			p := r.Perm(len(keys))
 			var init []string
 			for i := 0; i < n; i++ {
 				init = append(init, keys[p[i]])
 			}
-			runOps(c, init, 4+r.Intn(12))
+			if dups && n > 0 { // repeat some keys
+				for j := 0; j < 1+r.Intn(2); j++ {
+					at := r.Intn(len(init) + 1)
+					k := init[r.Intn(len(init))]
+					init = append(init[:at], append([]string{k}, init[at:]...)...)
+				}
+			}
+			runOps(c, init, 4+r.Intn(14), dups)
 		},
 	})
-	_ = strings.TrimSpace
 }
